@@ -1,7 +1,7 @@
 // C07 bounded stand-in: BuildUnixFSFile returns the CID and cumulative size boxo's balanced
 // importer (raw leaves, CIDv1 sha2-256) returns for the same bytes, chunker and width.
 //
-// Bounds (quick | thorough): width W in {2,3} | {2,3,4,5} with EVERY chunk count n in 0..W^3+W;
+// Bounds (quick | thorough): width W in {2,3,4} | {2,3,4,5} with EVERY chunk count n in 0..W^3+W;
 // thorough adds the default width 174 with n in {1,2,173..176,348,349,30276,30277}. Chunker
 // "size-4" | "size-4" and "size-1"; for each (W,n) two contents: last chunk short (n*K-1 bytes)
 // and full (n*K bytes). Case ids are "W=<w>,n=<n>" (chunker / variant go into the detail).
@@ -25,7 +25,7 @@ func TestBounded(t *testing.T) {
 	saved := builder.DefaultLinksPerBlock
 	defer func() { builder.DefaultLinksPerBlock = saved }()
 
-	for _, w := range vp.Pick([]int{2, 3}, []int{2, 3, 4, 5, 174}) {
+	for _, w := range vp.Pick([]int{2, 3, 4}, []int{2, 3, 4, 5, 174}) {
 		builder.DefaultLinksPerBlock = w
 		var ns []int
 		if w == 174 {
